@@ -250,8 +250,9 @@ class Db:
                 db.reindex()
             return NONE
         if op == "reopen":
-            self.close()
-            self.open()
+            if self.kind == "csv":        # memory storage does not outlive its object: nothing to reopen
+                self.close()
+                self.open()
             return NONE
         # ---- reads
         if op in ("search", "count", "contains", "get", "select"):
